@@ -122,7 +122,7 @@ def compile_one(job):
 
 
 def prune_build(inc_key):
-    """Keep objects/binaries of the 3 most recently used include-tree keys."""
+    """Keep objects/binaries of the 5 most recently used include-tree keys."""
     os.makedirs(BUILD, exist_ok=True)
     rf = os.path.join(BUILD, "recent.json")
     try:
@@ -131,8 +131,8 @@ def prune_build(inc_key):
         recent = []
     recent = [k for k in recent if k != inc_key]
     recent.insert(0, inc_key)
-    keep = set(recent[:3])
-    recent = recent[:3]
+    keep = set(recent[:5])
+    recent = recent[:5]
     try:
         json.dump(recent, open(rf + ".tmp", "w"))
         os.replace(rf + ".tmp", rf)
